@@ -12,8 +12,19 @@ use std::collections::BTreeMap;
 fn run_variant(len: usize, idx: u64, flags: u64) -> Result<u64, (String, String)> { run_variant_on(program_machine(len, idx, flags), flags) }
 /// the same for the self-referential programs: stores that patch an instruction which is fetched later in the same run, loads of the next instruction ...
 fn run_selfref(len: usize, idx: u64, flags: u64) -> Result<u64, (String, String)> { run_variant_on(selfref_machine(len, idx, flags), flags) }
+/// the same runs with the debugger's frame tracking on and a stack-argument signature registered for every address the program can call
+/// (what the debugger peeks at to fill in its frames is not something the executed instructions read)
+fn run_frames(len: usize, idx: u64, flags: u64) -> Result<u64, (String, String)> {
+    let (mut m, words) = program_machine(len, idx, flags);
+    m.debug_frames = true;
+    run_variant_on((m, words), flags | 0x100)
+}
 fn run_variant_on((m, words): (Machine, Vec<u16>), flags: u64) -> Result<u64, (String, String)> {
     let mut p = build(&m);
+    if flags & 0x100 != 0 {
+        use lc3_ensemble::sim::frame::ParameterList;
+        for a in (0x3000..0x3020u16).chain([0x0200, 0x1F00, 0x3100, 0x3006, 0xFD00]) { p.sim.frame_stack.set_subroutine_def(a, ParameterList::with_calling_convention(&["a", "b", "c"])); }
+    }
     let mut exp: BTreeMap<u16, (bool, bool, bool)> = BTreeMap::new();
     let mut steps = 0u64;
     while p.rf.instr_count < HORIZON as u64 && steps < 4000 {
@@ -179,10 +190,10 @@ pub fn run(ctx: &Ctx) -> Report {
     let maxlen = ctx.pick(2usize, 3usize);
     for len in 1..=maxlen {
         let n = 40u64.pow(len as u32);
-        let r = sweep(ctx, n * 4 * 4, 16, |k, acc| {
-            let (idx, flags, variant) = (k / 16, k / 4 % 4, k % 4);
+        let r = sweep(ctx, n * 4 * 5, 16, |k, acc| {
+            let (idx, flags, variant) = (k / 20, k / 5 % 4, k % 5);
             acc.evals += 1;
-            let res = if variant == 0 { acc.count("s2_step_programs", 1); s2(len, idx, flags, true).map(|x| x.0) } else if variant == 1 { acc.count("s2_run_programs", 1); run_variant(len, idx, flags) } else if variant == 2 { acc.count("s2_peek_programs", 1); peek_variant(len, idx, flags) } else { acc.count("s2_stepover_programs", 1); stepover_variant(len, idx, flags) };
+            let res = if variant == 0 { acc.count("s2_step_programs", 1); s2(len, idx, flags, true).map(|x| x.0) } else if variant == 1 { acc.count("s2_run_programs", 1); run_variant(len, idx, flags) } else if variant == 2 { acc.count("s2_peek_programs", 1); peek_variant(len, idx, flags) } else if variant == 4 { acc.count("s2_run_programs_with_frame_tracking", 1); run_frames(len, idx, flags) } else { acc.count("s2_stepover_programs", 1); stepover_variant(len, idx, flags) };
             match res {
                 Ok(steps) => { acc.transitions += steps; acc.traces += 1; acc.nontrivial += 1; }
                 Err((sig, d)) => if sig.starts_with("observer") || sig.starts_with("panic") { acc.violation(sig, format!("s2:{len}:{idx}:{flags}:{variant}"), d) },
@@ -220,7 +231,7 @@ pub fn replay(case: &str) -> Option<String> {
     let n = |i: usize| -> Option<u64> { p.get(i)?.parse().ok() };
     let r = match *p.first()? {
         "s1" => s1(n(1)?, n(2)? as u16, true).map(|_| ()),
-        "s2" => match n(4)? { 0 => s2(n(1)? as usize, n(2)?, n(3)?, true).map(|_| ()), 1 => run_variant(n(1)? as usize, n(2)?, n(3)?).map(|_| ()), 2 => peek_variant(n(1)? as usize, n(2)?, n(3)?).map(|_| ()), _ => stepover_variant(n(1)? as usize, n(2)?, n(3)?).map(|_| ()) },
+        "s2" => match n(4)? { 0 => s2(n(1)? as usize, n(2)?, n(3)?, true).map(|_| ()), 1 => run_variant(n(1)? as usize, n(2)?, n(3)?).map(|_| ()), 2 => peek_variant(n(1)? as usize, n(2)?, n(3)?).map(|_| ()), 4 => run_frames(n(1)? as usize, n(2)?, n(3)?).map(|_| ()), _ => stepover_variant(n(1)? as usize, n(2)?, n(3)?).map(|_| ()) },
         "long" => long_variant(n(1)?).map(|_| ()),
         "srr" => run_selfref(n(1)? as usize, n(2)?, n(3)?).map(|_| ()),
         "sr" => peek_selfref(n(1)? as usize, n(2)?, n(3)?).map(|_| ()),
